@@ -343,7 +343,13 @@ func (p c12) Gen(t *rapid.T, env *Env) (*Case, []*Out) {
 				sort.Strings(names)
 				for _, n := range names {
 					old := refOut[n]
-					switch rapid.IntRange(0, 4).Draw(t, "stale") {
+					switch rapid.IntRange(0, 6).Draw(t, "stale") {
+					case 5:
+						// the same file as a checkout with CRLF line ends holds it (seeded change s97: "keep the line endings
+						// of the file that is replaced")
+						old = bytes.ReplaceAll(old, []byte("\n"), []byte("\r\n"))
+					case 6:
+						old = append([]byte("\xef\xbb\xbf// saved by an editor that writes a byte-order mark\r\n"), old...)
 					case 0:
 						old = append(append([]byte(nil), old...), []byte("\n// trailing text of an earlier, longer revision\ntype StaleLeftover struct{ A, B, C int }\n")...)
 					case 1:
